@@ -16,10 +16,19 @@ use crate::error::CompilerError;
 /// Keys of objects whose string value is a path into the story.
 const PATH_KEYS: [&str; 6] = ["->", "f()", "->t->", "*", "CNT?", "^->"];
 
+/// The runtime's JSON reader gives up beyond this many levels of nesting
+/// (serde_json stops at 128 levels, one of which is the document object around `root`).
+const MAX_CONTAINER_DEPTH: usize = 126;
+
 pub(crate) fn check(story: &Value) -> Result<(), CompilerError> {
     let Some(root) = story.get("root") else {
         return Ok(());
     };
+    if depth_of(root) > MAX_CONTAINER_DEPTH {
+        return Err(CompilerError::invalid_source(
+            "content is nested more deeply than the runtime can load".to_owned(),
+        ));
+    }
     let mut ancestors: Vec<&Value> = Vec::new();
     check_container(root, root, &mut ancestors)
 }
@@ -133,4 +142,12 @@ fn named_child<'a>(items: &'a [Value], content_len: usize, name: &str) -> Option
             .and_then(Value::as_str)
             == Some(name)
     })
+}
+
+fn depth_of(value: &Value) -> usize {
+    match value {
+        Value::Array(items) => 1 + items.iter().map(depth_of).max().unwrap_or(0),
+        Value::Object(map) => 1 + map.values().map(depth_of).max().unwrap_or(0),
+        _ => 0,
+    }
 }
